@@ -1,5 +1,6 @@
 import Siot.Model.Conc
 import Siot.Props.C04
+import Siot.Gen.StoreRun
 /-
 C20 — Concurrent use is safe (the part a theorem can carry).
 A concurrent run is represented by its commit order (see Siot/Model/Conc.lean). The theorems hold for EVERY
@@ -63,5 +64,17 @@ theorem c20_commit_order_irrelevant (bs bs' : List (List Point))
     (hsame : ∀ p, p ∈ delivered bs ↔ p ∈ delivered bs') (hadm : Admissible (delivered bs)) :
     ∀ p, p ∈ rowsAfter [] bs ↔ p ∈ rowsAfter [] bs' :=
   c01_order_batching_irrelevant bs bs' hsame hadm
+
+
+/-- tie A: the table of request handlers `Store.Run` subscribes, each under its own key of the subscription map, and the
+one loop over that map that unsubscribes them before the database is closed (two handlers under one key would leave
+one of them subscribed after the stop). -/
+theorem gen_store_run_pinned :
+    Gen.storeRunSubs = ["\"nodePoints\" <- \"p.*\", st.handleNodePoints", "\"edgePoints\" <- \"p.*.*\", st.handleEdgePoints",
+      "\"nodes\" <- \"nodes.*.*\", st.handleNodesRequest", "\"auth.user\" <- \"auth.user\", st.handleAuthUser",
+      "\"auth.getNatsURI\" <- \"auth.getNatsURI\", st.handleAuthGetNatsURI",
+      "\"admin.storeVerify\" <- \"admin.storeVerify\", st.handleStoreVerify", "\"admin.storeMaint\" <- \"admin.storeMaint\", st.handleStoreMaint"] ∧
+    Gen.storeRunRanges = ["st.subscriptions"] ∧ Gen.storeRunCloses.length = 2 ∧ Gen.storeRunKeysDistinct = true :=
+  ⟨rfl, rfl, rfl, rfl⟩
 
 end Siot.Conc
